@@ -62,7 +62,7 @@ class RunInfo:
         storage: str | dict[OUTPUT_TYPE, str],
         cleanup: bool = True,
     ) -> RunInfo:
-        _validate_storage_names(storage)
+        _validate_storage_names(storage, pipeline)
         run_folder = _maybe_run_folder(run_folder, storage)
         if run_folder is not None:
             if cleanup:
@@ -202,10 +202,24 @@ def _requires_serialization(storage: str | dict[OUTPUT_TYPE, str]) -> bool:
     return any(get_storage_class(s).requires_serialization for s in storage.values())
 
 
-def _validate_storage_names(storage: str | dict[OUTPUT_TYPE, str]) -> None:
+def _validate_storage_names(
+    storage: str | dict[OUTPUT_TYPE, str],
+    pipeline: Pipeline | None = None,
+) -> None:
     """Resolve every storage identifier before the run folder is touched (raises for an unknown one)."""
     for name in [storage] if isinstance(storage, str) else storage.values():
         get_storage_class(name)
+    if pipeline is None or isinstance(storage, str) or "" in storage:
+        return
+    # Without a default entry every output that gets a storage array in `init_store` needs its own entry.
+    for f in pipeline.functions:
+        if f.mapspec is not None and f.mapspec.inputs and f.output_name not in storage:
+            msg = (
+                f"Cannot find storage class for `{f.output_name}`."
+                f" Either add `storage[{f.output_name}] = ...` or"
+                ' use a default by setting `storage[""] = ...`.'
+            )
+            raise ValueError(msg)
 
 
 def _maybe_run_folder(
